@@ -95,6 +95,11 @@ impl Fam {
                 }
             }
             "unif" => (rng.unit() * 2.0 - 1.0, rng.unit() * 2.0 - 1.0),
+            "offset" => {
+                // a small integer grid far away from the origin (exactly representable)
+                let off = if tag == 'd' { 67108864.0 } else { 1024.0 };
+                (off + rng.range(0, 7) as f64, off + rng.range(0, 7) as f64)
+            }
             "scaled" => {
                 // a small integer grid or uniform points, all scaled by one extreme power of two
                 // (within the validated range for f32 and f64)
@@ -190,6 +195,11 @@ impl Fam {
                 (rng.range(-2, self.n + 1) as f64 + h, rng.range(-2, self.n + 1) as f64 + h)
             }
             "line" => (rng.range(-2, 11) as f64, rng.range(-3, 22) as f64),
+            "offset" => {
+                let off = if tag == 'd' { 67108864.0 } else { 1024.0 };
+                let h = if rng.chance(300) { 0.5 } else { 0.0 };
+                (off + rng.range(-2, 9) as f64 + h, off + rng.range(-2, 9) as f64 + h)
+            }
             "circle" => (rng.range(-10, 10) as f64, rng.range(-10, 10) as f64),
             "scaled" => {
                 let sc = 2f64.powi(self.k);
@@ -509,8 +519,33 @@ fn mutate_cdt(rng: &mut Rng, ctx: &mut Ctx, fam: &Fam, counter: &mut u64, split:
             ctx.op(ins_op(ctx, p, *counter));
         }
     } else if r < 62 {
-        let a = rng.below(nv);
-        let b = rng.below(nv);
+        let mut a = rng.below(nv);
+        let mut b = rng.below(nv);
+        if rng.chance(400) {
+            // prefer a segment that passes exactly through a third vertex m (a, m, b collinear,
+            // m strictly between): constraint requests through existing vertices
+            let m = rng.below(nv);
+            if m != a {
+                let pa = ctx.tri.pos_bits(a as usize);
+                let pm = ctx.tri.pos_bits(m as usize);
+                let (pa, pm) = ((val(tag, pa.0), val(tag, pa.1)), (val(tag, pm.0), val(tag, pm.1)));
+                for cand in 0..nv {
+                    let pc = ctx.tri.pos_bits(cand as usize);
+                    let pc = (val(tag, pc.0), val(tag, pc.1));
+                    let d1 = (pm.0 - pa.0, pm.1 - pa.1);
+                    let d2 = (pc.0 - pa.0, pc.1 - pa.1);
+                    if cand != a && cand != m && d1.0 * d2.1 - d1.1 * d2.0 == 0.0
+                        && d1.0 * d2.0 + d1.1 * d2.1 > d1.0 * d1.0 + d1.1 * d1.1
+                    {
+                        b = cand;
+                        if rng.chance(500) {
+                            std::mem::swap(&mut a, &mut b);
+                        }
+                        break;
+                    }
+                }
+            }
+        }
         if split && rng.chance(600) {
             ctx.op(vec![s("consplit"), a.to_string(), b.to_string()]);
         } else if rng.chance(500) {
@@ -596,7 +631,7 @@ pub fn history(mode: &str, idx: u64, rng: &mut Rng, thorough: bool, timeout_ms: 
         "dt" | "dtlast" => {
             let hints: &[&str] = if mode == "dtlast" { &["last"] } else { &ALL_HINTS };
             let (scalar, kind, hint) = instance(rng, &["dt"], true, hints);
-            let fam = Fam::choose(rng, &["grid", "grid", "grid", "line", "circle", "unif", "neardeg", "neardeg", "magn", "cluster", "scaled", "wide"]);
+            let fam = Fam::choose(rng, &["grid", "grid", "grid", "line", "circle", "unif", "neardeg", "neardeg", "magn", "cluster", "scaled", "wide", "offset"]);
             let mut ctx = Ctx::new(&scalar, &kind, &hint, timeout_ms);
             ctx.header(idx, &scalar, &hint, mode, &fam.label());
             if rng.chance(200) {
@@ -741,9 +776,10 @@ pub fn history(mode: &str, idx: u64, rng: &mut Rng, thorough: bool, timeout_ms: 
                 "interp" => &["dt", "dt", "cdt"],
                 _ => &["dt", "cdt"],
             };
-            let (scalar, kind, hint) = instance(rng, kinds, mode != "interp" && mode != "vor", &["last", "last", "h2", "h16"]);
+            let (scalar, kind, hint) = instance(rng, kinds, mode != "interp", &["last", "last", "h2", "h16"]);
             let fams: &[&str] = match mode {
-                "interp" | "vor" => &["grid", "grid", "unif", "circle"],
+                "vor" => &["grid", "grid", "unif", "circle", "offset"],
+                "interp" => &["grid", "grid", "unif", "circle"],
                 "shape" | "line" | "nn" => &["grid", "grid", "grid", "line", "circle", "unif"],
                 _ => &["grid", "grid", "line", "circle", "unif", "neardeg", "magn", "scaled", "wide"],
             };
